@@ -31,4 +31,8 @@ Universe(maxs, acts) ==
 ScriptsQuick == Universe(3, {"next", "complete"})
 ScriptsFull == Universe(3, {"next", "prev", "complete", "cancel"})
 ScriptsLive == Universe(2, {"next", "cancel"})
+ScriptsTiny ==
+  Universe(1, {"next"})
+  \cup {[mode |-> "foreach", script |-> <<[shape |-> "cmd", status |-> "executing", sid |-> "s1", node |-> "n1"], r>>,
+         plan |-> <<[act |-> "next", cberr |-> FALSE], q>>] : r \in Replies, q \in Plans({"next"}, BOOLEAN)}
 =============================================================================
